@@ -4,6 +4,7 @@ import (
 	"fmt"
 	"runtime"
 	"runtime/debug"
+	"sync"
 
 	gocvss20 "github.com/pandatix/go-cvss/20"
 	gocvss30 "github.com/pandatix/go-cvss/30"
@@ -46,6 +47,44 @@ func pad7(f func(int), i int) { var p [56]byte; f(i); runtime.KeepAlive(&p) }
 
 var pads = []func(func(int), int){func(f func(int), i int) { f(i) }, pad1, pad2, pad3, pad4, pad5, pad6, pad7}
 
+// parallelTotal: g goroutines make n calls each at the same time (collector off, all Ps); the exact number of
+// heap allocations made meanwhile. A buffer that only the first of two overlapping calls gets (a one-slot
+// hand-over, a TryLock with a fallback) costs the second one an extra allocation - for ever, not as warm-up.
+func parallelTotal(g, n int, f func(i int)) uint64 {
+	defer debug.SetGCPercent(debug.SetGCPercent(-1))
+	var wg sync.WaitGroup
+	start := make(chan struct{})
+	for k := 0; k < g; k++ {
+		wg.Add(1)
+		go func(k int) {
+			defer wg.Done()
+			<-start
+			for i := 0; i < n; i++ {
+				f(k*n + i)
+			}
+		}(k)
+	}
+	runtime.Gosched()
+	var m0, m1 runtime.MemStats
+	runtime.ReadMemStats(&m0)
+	close(start)
+	wg.Wait()
+	runtime.ReadMemStats(&m1)
+	return m1.Mallocs - m0.Mallocs
+}
+
+// sinks: one cache line per goroutine (results must stay observable so that the calls are not optimised away,
+// and goroutines must not write to the same variable).
+type sinkLine struct {
+	o   streamObj
+	s   string
+	f   float64
+	e   error
+	pad [64]byte
+}
+
+var psinks [65]sinkLine
+
 // StreamCase: one stream measurement.
 type StreamCase struct {
 	Ver    int    `json:"ver"`
@@ -54,6 +93,7 @@ type StreamCase struct {
 	Vector string `json:"vector,omitempty"`
 	From   int    `json:"from"` // distinct: first index into the version's prefix space
 	N      int    `json:"n"`
+	G      int    `json:"goroutines,omitempty"` // > 1: the N calls are made by each of G goroutines at the same time
 }
 
 // streamObj is what the four object types have in common.
@@ -69,7 +109,7 @@ type streamAPI struct {
 	// unless the method lets its receiver escape.
 	local  func(o streamObj, kind, abv, val string) func(i int)
 	parse  func(s string) (streamObj, error) // stores the result in a typed sink
-	scores func(o streamObj)
+	scores func(o streamObj) float64
 	rating func(float64) (string, error)
 	nomen  func(o streamObj) string
 }
@@ -99,10 +139,10 @@ func streamTarget(vi int) streamAPI {
 					sinkF = b.BaseScore() + b.TemporalScore() + b.EnvironmentalScore() + b.Impact() + b.Exploitability()
 				}
 			},
-			parse: func(s string) (streamObj, error) { c, err := gocvss20.ParseVector(s); sink20 = c; return c, err },
-			scores: func(o streamObj) {
+			parse: func(s string) (streamObj, error) { c, err := gocvss20.ParseVector(s); return c, err },
+			scores: func(o streamObj) float64 {
 				c := o.(*gocvss20.CVSS20)
-				sinkF = c.BaseScore() + c.TemporalScore() + c.EnvironmentalScore() + c.Impact() + c.Exploitability()
+				return c.BaseScore() + c.TemporalScore() + c.EnvironmentalScore() + c.Impact() + c.Exploitability()
 			},
 		}
 	case 1:
@@ -128,10 +168,10 @@ func streamTarget(vi int) streamAPI {
 					sinkF = b.BaseScore() + b.TemporalScore() + b.EnvironmentalScore() + b.Impact() + b.Exploitability()
 				}
 			},
-			parse: func(s string) (streamObj, error) { c, err := gocvss30.ParseVector(s); sink30 = c; return c, err },
-			scores: func(o streamObj) {
+			parse: func(s string) (streamObj, error) { c, err := gocvss30.ParseVector(s); return c, err },
+			scores: func(o streamObj) float64 {
 				c := o.(*gocvss30.CVSS30)
-				sinkF = c.BaseScore() + c.TemporalScore() + c.EnvironmentalScore() + c.Impact() + c.Exploitability()
+				return c.BaseScore() + c.TemporalScore() + c.EnvironmentalScore() + c.Impact() + c.Exploitability()
 			},
 			rating: gocvss30.Rating,
 		}
@@ -158,10 +198,10 @@ func streamTarget(vi int) streamAPI {
 					sinkF = b.BaseScore() + b.TemporalScore() + b.EnvironmentalScore() + b.Impact() + b.Exploitability()
 				}
 			},
-			parse: func(s string) (streamObj, error) { c, err := gocvss31.ParseVector(s); sink31 = c; return c, err },
-			scores: func(o streamObj) {
+			parse: func(s string) (streamObj, error) { c, err := gocvss31.ParseVector(s); return c, err },
+			scores: func(o streamObj) float64 {
 				c := o.(*gocvss31.CVSS31)
-				sinkF = c.BaseScore() + c.TemporalScore() + c.EnvironmentalScore() + c.Impact() + c.Exploitability()
+				return c.BaseScore() + c.TemporalScore() + c.EnvironmentalScore() + c.Impact() + c.Exploitability()
 			},
 			rating: gocvss31.Rating,
 		}
@@ -185,8 +225,8 @@ func streamTarget(vi int) streamAPI {
 			}
 			return func(i int) { b := *c; sinkF = b.Score() }
 		},
-		parse:  func(s string) (streamObj, error) { c, err := gocvss40.ParseVector(s); sink40 = c; return c, err },
-		scores: func(o streamObj) { sinkF = o.(*gocvss40.CVSS40).Score() },
+		parse:  func(s string) (streamObj, error) { c, err := gocvss40.ParseVector(s); return c, err },
+		scores: func(o streamObj) float64 { return o.(*gocvss40.CVSS40).Score() },
 		rating: gocvss40.Rating,
 		nomen:  func(o streamObj) string { return o.(*gocvss40.CVSS40).Nomenclature() },
 	}
@@ -221,6 +261,12 @@ func checkStream(c StreamCase) error {
 			strs = []string{c.Vector}
 		}
 		pick := func(i int) string { return strs[i%len(strs)] }
+		sk := func(i int) *sinkLine { // the sink of the goroutine that makes call i
+			if c.G > 1 {
+				return &psinks[1+(i/c.N)%64]
+			}
+			return &psinks[0]
+		}
 		var objs []streamObj
 		if c.Func != "parse" {
 			for _, s := range strs {
@@ -238,12 +284,12 @@ func checkStream(c StreamCase) error {
 		abv := v.Metrics[len(v.Metrics)-1].Abv
 		switch c.Func {
 		case "parse":
-			f, budget = func(i int) { api.parse(pick(i)) }, uint64(c.N)
+			f, budget = func(i int) { k := sk(i); k.o, k.e = api.parse(pick(i)) }, uint64(c.N)
 			api.parse(pick(0)) // the pooled buffer of the v2.0 parser exists from here on
 		case "vector":
-			f, budget, exact = func(i int) { sinkStr = obj(i).Vector() }, uint64(c.N), true
+			f, budget, exact = func(i int) { sk(i).s = obj(i).Vector() }, uint64(c.N), true
 		case "get":
-			f, budget = func(i int) { sinkStr, sinkErr = obj(i).Get(abv) }, 0
+			f, budget = func(i int) { k := sk(i); k.s, k.e = obj(i).Get(abv) }, 0
 		case "set":
 			cur := make([]string, len(objs))
 			for i, o := range objs {
@@ -251,7 +297,7 @@ func checkStream(c StreamCase) error {
 			}
 			f, budget = func(i int) { sinkErr = obj(i).Set(abv, cur[i%len(cur)]); sinkErr = obj(i).Set(abv, "zz") }, 0
 		case "scores":
-			f, budget = func(i int) { api.scores(obj(i)) }, 0
+			f, budget = func(i int) { sk(i).f = api.scores(obj(i)) }, 0
 		case "set-local", "get-local", "scores-local":
 			cur, _ := objs[0].Get(abv)
 			f, budget = api.local(objs[0], c.Func[:len(c.Func)-6], abv, cur), 0
@@ -270,15 +316,28 @@ func checkStream(c StreamCase) error {
 		default:
 			return nil
 		}
-		total := streamTotal(c.N, f)
+		slack := uint64(streamSlack)
+		var total uint64
+		if c.G > 1 {
+			// typed sinks are written by all goroutines: give every goroutine its own work instead
+			total = parallelTotal(c.G, c.N, f)
+			budget *= uint64(c.G)
+			// the goroutines themselves, and a pooled buffer that follows a goroutine to another P
+			slack = 256 + uint64(c.G*c.N)/20000
+		} else {
+			total = streamTotal(c.N, f)
+		}
 		if total < best {
 			best = total
 		}
-		if best <= budget+streamSlack && (!exact || best+streamSlack >= budget) {
+		if best <= budget+slack && (!exact || best+slack >= budget) {
 			return nil
 		}
 	}
 	what := fmt.Sprintf("%d calls on the vector %q", c.N, c.Vector)
+	if c.G > 1 {
+		what = fmt.Sprintf("%d goroutines at the same time, each making ", c.G) + what
+	}
 	if c.Stream == "distinct" {
 		what = fmt.Sprintf("one call on each of %d different objects (canonical vectors %d.. of the v%s space), none met before", c.N, c.From, v.Name)
 	}
@@ -313,6 +372,10 @@ func streamCases(nSame, nDistinct int, from int) []StreamCase {
 			if fn != "rating" {
 				out = append(out, StreamCase{Ver: vi, Func: fn, Stream: "distinct", From: from, N: nDistinct})
 			}
+		}
+		// overlapping calls: several goroutines at the same time, each with its own objects
+		for _, fn := range []string{"parse", "vector", "get", "scores"} {
+			out = append(out, StreamCase{Ver: vi, Func: fn, Stream: "same", Vector: spec.Canon(v, longest), N: nSame / 2, G: 8})
 		}
 		// objects held by value in a local variable
 		for _, fn := range []string{"set-local", "get-local", "vector-local", "scores-local"} {
